@@ -161,12 +161,56 @@ def rust_f64_to_string(x):
 # ---- generic value ops -----------------------------------------------------------------------------------
 
 
+_CANON = {}
+
+
+def canonical_renderings(n):
+    """all strings of exactly n characters that f64::to_string produces for a finite non-zero double"""
+    if n in _CANON:
+        return _CANON[n]
+    import itertools
+    out = []
+    if n <= 4:
+        for t in itertools.product("0123456789.-", repeat=n):
+            t = "".join(t)
+            try:
+                v = float(t)
+            except ValueError:
+                continue
+            if v != 0.0 and not math.isinf(v) and rust_f64_to_string(v) == t:
+                out.append((t, v))
+    else:
+        raise Unsupported("comparison of an opaque number rendering with a string of %d characters" % n)
+    _CANON[n] = out
+    return out
+
+
 def s_eq(I, a, b):
     """string equality (lists of Ch) -> bool term"""
     if isinstance(a, OpaqueStr) or isinstance(b, OpaqueStr):
         if isinstance(a, OpaqueStr) and isinstance(b, OpaqueStr) and a.tag == b.tag:
             return f_bits_eq(a.arg, b.arg)
+        o, t = (a, b) if isinstance(a, OpaqueStr) else (b, a)
+        if o.tag == "f64::to_string" and isinstance(t, SStr) and not any(isinstance(x, OpaqueStr) for x in t):
+            # the rendering of a finite non-zero double equals t iff t is one of the canonical renderings and denotes it
+            alts = []
+            for txt, val in canonical_renderings(len(t)):
+                alts.append(And(*[sym.ceq(ch.c, ord(c)) for ch, c in zip(t, txt)], z3.fpEQ(to_fp(o.arg), z3.FPVal(val, F64))))
+            return Or(*alts)
         raise Unsupported("comparison with an opaque string")
+    if any(isinstance(x, OpaqueStr) for x in a) or any(isinstance(x, OpaqueStr) for x in b):
+        # strings with an opaque segment: comparable only segment by segment
+        if len(a) != len(b):
+            raise Unsupported("comparison of strings with opaque segments of different shape")
+        cs = []
+        for x, y in zip(a, b):
+            if isinstance(x, OpaqueStr) and isinstance(y, OpaqueStr) and x.tag == y.tag:
+                cs.append(f_bits_eq(x.arg, y.arg))
+            elif isinstance(x, Ch) and isinstance(y, Ch):
+                cs.append(sym.ceq(x.c, y.c))
+            else:
+                raise Unsupported("comparison of strings with opaque segments of different shape")
+        return And(*cs)
     if len(a) != len(b):
         return False
     return And(*[sym.ceq(x.c, y.c) for x, y in zip(a, b)])
@@ -270,6 +314,10 @@ def int_arith(I, op, a, b):
 
 
 def binop(I, op, a, b):
+    if op in ("==", "!=") and isinstance(a, Enum) and getattr(a, "file", None) and not (isinstance(b, Enum) and b.ty == a.ty):
+        # impl PartialEq<T> for <repo enum>
+        r = I.call_method_of(a, "eq", [a, b])
+        return r if op == "==" else Not(r)
     if op == "==":
         return v_eq(I, a, b)
     if op == "!=":
@@ -722,6 +770,9 @@ def method(I, recv, name, args, e, env):
                 units += ["unit"] * k
             return Iter(units) if name != "as_bytes" else SVec(units)
         if name in ("push", "push_str", "append"):
+            if isinstance(args[0], OpaqueStr):
+                recv.append(args[0])
+                return UNIT
             recv.extend(args[0] if isinstance(args[0], (SStr, list)) and not isinstance(args[0], Ch) else [args[0]])
             if name == "append":
                 del args[0][:]
@@ -768,6 +819,36 @@ def method(I, recv, name, args, e, env):
                 else:
                     out.append(ch)
             return out
+        if name in ("trim_matches", "trim_start_matches", "trim_end_matches"):
+            pred = args[0]
+            hit = (lambda ch: I.truth(I.call_closure(pred, [ch]))) if isinstance(pred, (Closure, FnRef)) else \
+                  (lambda ch: I.branch(sym.ceq(ch.c, pred.c), "trim_matches"))
+            t = list(recv)
+            if name != "trim_end_matches":
+                while t and hit(t[0]):
+                    t.pop(0)
+            if name != "trim_start_matches":
+                while t and hit(t[-1]):
+                    t.pop()
+            return SStr(t)
+        if name in ("strip_prefix", "strip_suffix"):
+            p = args[0] if isinstance(args[0], SStr) else SStr([args[0]])
+            if len(p) > len(recv):
+                return NONE
+            seg = recv[:len(p)] if name == "strip_prefix" else recv[len(recv) - len(p):]
+            if I.branch(And(*[sym.ceq(a.c, b.c) for a, b in zip(seg, p)]), name):
+                return Some(SStr(recv[len(p):] if name == "strip_prefix" else recv[:len(recv) - len(p)]))
+            return NONE
+        if name == "split" and isinstance(args[0], (Closure, FnRef)):
+            parts, cur = [], SStr()
+            for ch in recv:
+                if I.truth(I.call_closure(args[0], [ch])):
+                    parts.append(cur)
+                    cur = SStr()
+                else:
+                    cur.append(ch)
+            parts.append(cur)
+            return Iter(parts)
         if name == "split":
             p = args[0] if isinstance(args[0], SStr) else SStr([args[0]])
             if len(p) != 1:
@@ -991,6 +1072,9 @@ def method(I, recv, name, args, e, env):
             return utf8_width(recv.c)
         if name == "is_ascii_digit":
             return sym.cin(recv.c, 0x30, 0x39)
+        if name in ("is_ascii_alphabetic", "is_ascii_alphanumeric", "is_ascii_uppercase", "is_ascii_lowercase", "is_ascii_hexdigit", "is_ascii"):
+            from .nomsem import ASCII_METHODS
+            return sym.cin_ranges(recv.c, ASCII_METHODS[name])
         if name == "eq":
             return sym.ceq(recv.c, args[0].c)
         raise Unsupported("char::%s" % name)
@@ -1079,8 +1163,25 @@ def parse_f64(I, s):
         return Err(Enum("ParseFloatError", "Invalid", []))
     if "7" not in txt:
         return Ok(v)
-    I.fresh += 1
-    fv = z3.FP("parsed%d" % I.fresh, F64)
+    # the same text (same character terms, same lexical shape) always denotes the same number
+    key = (txt,) + tuple(ch.c if isinstance(ch.c, int) else ch.c.get_id() for ch in s)
+    cache = I.__dict__.setdefault("parse_cache", {})
+    if key not in cache:
+        I.fresh += 1
+        cache[key] = z3.FP("parsed%d" % I.fresh, F64)
+    fv = cache[key]
     I.ex.pc.append(z3.Not(z3.fpIsNaN(fv)))
+    body = txt.lstrip("+-")
+    if body.isdigit() and len(body) <= 9:
+        # an integer numeral of a few digits is exactly representable: give it its value
+        acc = z3.BitVecVal(0, IW)
+        for ch in s[len(txt) - len(body):]:
+            c = ch.c
+            d = z3.BitVecVal(c - 0x30, IW) if isinstance(c, int) else z3.ZeroExt(IW - sym.CW, c) - 0x30
+            acc = acc * 10 + d
+        mag = z3.fpToFPUnsigned(RNE, acc, F64)
+        I.ex.pc.append(fv == (z3.fpNeg(mag) if txt.startswith("-") else mag))
+    else:
+        I.ex.pc.append(z3.Not(z3.fpIsInf(fv)) if not any(c in txt for c in "eE") else z3.BoolVal(True))
     I.ex.notes.append(("parsed", txt, fv))
     return Ok(fv)
